@@ -24,7 +24,10 @@ TRUSTED = ["translator gen/date_gen.py (+ gen/cfun.py, gen/math_gen.py): format 
            "hand model lean/AwsVerif/Model/DateTime.lean (tied by this correspondence run only)",
            "libc gmtime_r / timegm / strftime are MODELLED (proleptic Gregorian calendar, C locale, English names), "
            "not verified: tied by P agreement on the enumerated instants and by the Python datetime oracle"]
-ASSUMPTIONS = ["libc contract taken over by the model, including the one-line glue of source/posix/time.c (aws_timegm = timegm, aws_gmtime = gmtime_r): "
+ASSUMPTIONS = ["conversions are re-entrant because only the _r forms are used: source/posix/time.c is tied by the generated layer to exactly "
+               "gmtime_r / localtime_r / timegm on the caller's buffers (c19_gen_time_glue; any other body is rejected by the translator), and a "
+               "threads stage (6 threads, different instants, results compared with a single-threaded table) runs on every check",
+               "libc contract taken over by the model, including the one-line glue of source/posix/time.c (aws_timegm = timegm, aws_gmtime = gmtime_r): "
                "timegm is total and exact on the whole range, negative results (wall-clock fields before 1970, later shifted back by the "
                "offset) are legitimate values, not errors; checked by the P streams (edge-offset stream: texts whose fields lie before 1970 "
                "or beyond the instant's own year) and the oracle, not proved about libc",
@@ -47,6 +50,7 @@ RULE = ("per instant t: rt (format then parse the produced text) for 3 formats x
         "next second, .4995/.5, .0005) and their neighbours in the double grid, at bases across the range; oracle: timestamp/ms as IEEE arithmetic gives them "
         "(ms = 1000 for fractions in [0.9995,1)), views consistent, as_millis within 1 ms of the exact instant; "
         "mixed-separators stream: ISO texts with extended date + basic time and basic date + extended time; "
+        "threads stage: 6 threads x 60000 (thorough 1500000) iterations of init / format / parse on per-thread instants against a precomputed table; "
         "fractions, zone-designator case variants; W stream: mutated / out-of-range / over-long texts, 2-digit years, short buffers; "
         "non-trivial = case contains at least one successful parse of a non-midnight instant or a non-zero offset")
 
@@ -911,10 +915,42 @@ def _tz_stage(ctx, cases, tz):
             ctx.cov["distribution"] = saved_dist
 
 
+def threads_stage(ctx):
+    """6 threads convert different instants concurrently (init_epoch_secs / init_epoch_millis / the UTC formatters /
+    a parse with an offset) and compare every result with a table computed single-threaded beforehand: a conversion
+    that goes through shared libc state (gmtime / localtime instead of the _r forms) shows as another thread's date"""
+    import subprocess, time
+    try:
+        exe = cbuild.build_harness(name="datetime_threads", flavour="plain")
+    except cbuild.BuildError as e:
+        ctx.machinery_broken("threads stage build: " + str(e)[:1500])
+        return
+    its = 60000 if ctx.tier == "quick" else 1500000
+    t0 = time.time()
+    try:
+        r = subprocess.run([exe, str(its)], stdout=subprocess.PIPE, stderr=subprocess.STDOUT, text=True, timeout=600,
+                           env=dict(os.environ, TZ="UTC"))
+        rc, out = r.returncode, r.stdout
+    except subprocess.TimeoutExpired as e:
+        rc, out = -999, (e.stdout or "") + "\n[timeout]"
+    ctx.cov["threads_stage"] = {"threads": 6, "iterations_per_thread": its, "rc": rc, "wall_s": round(time.time() - t0, 2)}
+    ctx.cov["evaluations"] += 1
+    if "P threads skipped" in out:
+        ctx.cov["threads_stage"]["skipped"] = out.strip().splitlines()[-1][:200]
+        ctx.notes.append("threads stage skipped: " + out.strip().splitlines()[-1][:200])
+        return
+    if rc != 0 or "P threads ok " not in out:
+        first = next((l for l in out.splitlines() if "MONITOR" in l), "rc=%d" % rc)
+        ctx.violation(f"threads-{ctx.seed}", {"stage": "threads", "cmd": f"TZ=UTC {exe} {its}", "rc": rc, "observed": out[-3000:]},
+                      "different instants converted concurrently on 6 threads: a thread got a result that is not its own ("
+                      + first[:260] + ")")
+
+
 def extra_stages(ctx):
-    """further correspondence runs with non-UTC process time zones (east and west of UTC)"""
+    """further correspondence runs with non-UTC process time zones (east and west of UTC); the threads stage"""
     for tz in TZ_ALTS:
         _tz_stage(ctx, gen_cases_tz(ctx.rng, ctx.tier, tz), tz)
+    threads_stage(ctx)
 
 
 def replay(ctx, obj):
